@@ -145,7 +145,7 @@ def run_unit(unit, repo='/repo', rlimit=50, seed=None, threads=None, keep=True, 
     if threads:
         cmd += ['--num-threads', str(threads)]
     if seed is not None:
-        cmd += ['-V', 'smt.random_seed=%d' % (seed % 100000)] if False else []
+        cmd += ['--smt-option', 'smt.random_seed=%d' % (seed % 100000)]
     res['cmd'] = ' '.join(cmd)
     p = subprocess.run(cmd, stdout=subprocess.PIPE, stderr=subprocess.PIPE, text=True, cwd=wd)
     res['wall_s'] = time.time() - t0
